@@ -30,6 +30,9 @@ def lattice(tier):
                 for nt in (1, 2):
                     for pr in ((21, 108), (60, 61)):
                         yield dict(fl=fl, vb=vb, nt=nt, pr=pr, nv=0, st=0, tsr=0)
+        for vb in (3, 4, 5, 7, 16, 17, 23, 32, 36, 50, 64, 84, 85, 100, 126, 127):
+            for fl in (FLAGS[0], FLAGS[15]):
+                yield dict(fl=fl, vb=vb, nt=1, pr=(60, 61), nv=2, st=0, tsr=1)
         for fl in (FLAGS[0], FLAGS[15], FLAGS[5]):
             for nv in (1, 2):
                 for st in (1, 2):
@@ -51,6 +54,10 @@ def lattice(tier):
                 for tsr in (0, 1):
                     for nv in (0, 1, 2):
                         yield dict(fl=fl, vb=3, nt=2, pr=(60, 61), nv=nv, st=st, tsr=tsr)
+        # every possible number of velocity bins (the table construction is the root of most vocabulary defects)
+        for vb in range(1, 128):
+            for fl in (FLAGS[0], FLAGS[15], FLAGS[1]):
+                yield dict(fl=fl, vb=vb, nt=1, pr=(60, 61), nv=2, st=0, tsr=1)
 
 
 def context(tier, seed):
